@@ -135,10 +135,11 @@ def readScalars (sig : Sig) : (todo i : Nat) → Option (List Nat)
     | none => none
     | some rest => some (s :: rest)
 
-/-- `secp256k1_whitelist_verify`. NOTE: no `n_keys ≥ 1` check (mirrors the code). -/
+/-- `secp256k1_whitelist_verify`. An empty key list is rejected (finding F1: before the `fix:` commit in
+    /repo the C code had no such check and accepted a forgery computable from public data). -/
 def verify (sig : Sig) (online offline : List Pt) (sub : Pt) : Nat :=
   let nKeys := online.length
-  if sig.nKeys > maxKeys ∨ sig.nKeys ≠ nKeys then 0 else
+  if sig.nKeys = 0 ∨ sig.nKeys > maxKeys ∨ sig.nKeys ≠ nKeys then 0 else
   match readScalars sig sig.nKeys 0 with
   | none => 0
   | some s =>
